@@ -183,32 +183,64 @@ def run(chk) -> None:
         has_max = any(isinstance(s, ast.Attribute) and s.attr == "max" and isinstance(s.value, ast.Name) and s.value.id == "self" for s in ast.walk(mrp.classes[cname]))
         if has_max:
             rets = [r.value for r in ast.walk(call) if isinstance(r, ast.Return) and r.value is not None]
-            allok = bool(rets) and all(_bounded_by_max(expand(r, r)) for r in rets)
+            allok = bool(rets) and all(_bounded_by_max(expand(r, r), mrp) for r in rets)
             chk.ob("C07.R2", f"{cname}: every returned delay passes through the clamp by self.max", allok, m=mrp, node=call, fn=call, instance=f"upper-clamp:{cname}",
                    reason="a returned expression is not bounded above by self.max (min(…, self.max) / uniform(…, clamped))")
     chk.floor("C07.R2", "exponential terms in wait strategies", pows, 3)
 
     # ---------------------------------------------------------------- R3 determinism per seed
-    draws = 0
+    DRAW = ("uniform", "random", "randint", "gauss", "choice", "expovariate", "triangular", "randrange", "betavariate", "normalvariate")
+    from ..index import enclosing_function as _encl, qualname_of as _qn
+    draw_fns: dict[int, tuple] = {}
+    for qn, f in mrp.functions.items():
+        for n in ast.walk(f):
+            if isinstance(n, ast.Call) and isinstance(n.func, ast.Attribute) and n.func.attr in DRAW and _encl(n) is f:
+                draw_fns.setdefault(id(f), (qn, f, []))[2].append(n)
+    reaching = set()  # strategy classes whose __call__ reaches a draw
+    for qn, f, draws in draw_fns.values():
+        params = [a.arg for a in f.args.posonlyargs + f.args.args + f.args.kwonlyargs]
+        for n in draws:
+            d = expand(n.func.value, n, depth=1)
+            seed_name = None
+            ok = False
+            if isinstance(d, ast.IfExp) and isinstance(d.body, ast.Call) and call_name(d.body) == "random.Random" and len(d.body.args) == 1 and isinstance(d.body.args[0], ast.Name):
+                seed_name = d.body.args[0].id
+                ok = set(atoms(d.test, True)) == {(f"None is {seed_name}", False)} and seed_name in params
+            chk.ob("C07.R3", f"{qn}: the random draw uses random.Random(seed) whenever a seed is given (`seed is not None`, so seed 0 counts)", ok, m=mrp, node=n, fn=f, instance=f"seeded-draw:{qn}",
+                   reason=f"draw receiver is `{ast.unparse(d)}`")
+        owner = qn.split(".")[0]
+        if qn.endswith(".__call__"):
+            reaching.add(owner)
+        else:
+            # a module-level helper: every caller must hand its own seed parameter through
+            hname = qn.split(".")[-1]
+            seed_params = [p_ for p_ in params if "seed" in p_]
+            for cq, cf in mrp.functions.items():
+                for c in ast.walk(cf):
+                    if isinstance(c, ast.Call) and isinstance(c.func, ast.Name) and c.func.id == hname and _encl(c) is cf:
+                        cparams = [a.arg for a in cf.args.posonlyargs + cf.args.args + cf.args.kwonlyargs]
+                        passed = None
+                        for sp in seed_params:
+                            idx = params.index(sp)
+                            passed = kwarg(c, sp, idx)
+                        okc = passed is not None and isinstance(passed, ast.Name) and passed.id in cparams and "seed" in passed.id
+                        chk.ob("C07.R3", f"{cq} passes its seed to the drawing helper {hname}", bool(okc), m=mrp, node=c, fn=cf, instance=f"seed-to-helper:{cq}",
+                               reason=f"seed argument is `{ast.unparse(passed) if passed is not None else None}`")
+                        if cq.endswith(".__call__"):
+                            reaching.add(cq.split(".")[0])
+    draws = len(reaching)
     for cname in classes:
         call = mrp.functions.get(f"{cname}.__call__")
         if call is None:
             continue
         for n in ast.walk(call):
-            if isinstance(n, ast.Call) and isinstance(n.func, ast.Attribute) and n.func.attr in ("uniform", "random", "randint", "gauss", "choice", "expovariate", "triangular"):
-                draws += 1
-                recv = n.func.value
-                d = expand(recv, n, depth=1)
-                ok = isinstance(d, ast.IfExp) and set(atoms(d.test, True)) == {("None is seed", False)} and isinstance(d.body, ast.Call) and call_name(d.body) == "random.Random" \
-                    and [ast.unparse(a) for a in d.body.args] == ["seed"]
-                chk.ob("C07.R3", f"{cname}: the random draw uses random.Random(seed) whenever a seed is given", ok, m=mrp, node=n, fn=call, instance=f"seeded-draw:{cname}",
-                       reason=f"draw receiver is `{ast.unparse(d)}`")
-        for n in ast.walk(call):
             if isinstance(n, ast.Call) and n.args and ("strateg" in ast.unparse(n.func)):
                 sk = kwarg(n, "seed")
                 chk.ob("C07.R3", f"{cname} forwards seed to the inner strategy", sk is not None and ast.unparse(sk) == "seed", m=mrp, node=n, fn=call, instance=f"forwards-seed:{cname}",
                        reason=f"seed={ast.unparse(sk) if sk is not None else None}")
-    chk.floor("C07.R3", "random draws in wait strategies", draws, 3)
+    chk.floor("C07.R3", "wait strategies that reach a random draw", draws, 3)
+    direct = [n for qn, f in mrp.functions.items() for n in ast.walk(f) if isinstance(n, ast.Call) and (call_name(n) or "").startswith("random.") and call_name(n) != "random.Random"]
+    chk.ob("C07.R3", "no draw goes straight to the module-level random generator", not direct, m=mrp, node=direct[0] if direct else mrp.tree, instance="no-global-draw", reason=f"`{ast.unparse(direct[0])[:50]}`" if direct else "")
     nxt = mrp.functions.get("_ComposableRetryPolicy.next")
     w = [c for c in ast.walk(nxt) if isinstance(c, ast.Call) and ast.unparse(c.func) == "self.wait"] if nxt is not None else []
     if not w:
@@ -236,22 +268,34 @@ def run(chk) -> None:
         chk.ob("C07.R3", "the reducer hands the seed to every policy that accepts one", ok, m=ms, node=c, fn=sr, instance="seed:passed", reason="retries.next is called without the seed")
 
 
-def _bounded_by_max(e: ast.AST) -> bool:
-    """Is the value of e bounded above by self.max (structurally)?"""
+def _bounded_by_max(e: ast.AST, mod=None, _depth: int = 2) -> bool:
+    """Is the value of e bounded above by self.max (structurally)?  Module-level helpers are followed with their
+    parameters substituted by the call's arguments."""
+    rec = lambda x: _bounded_by_max(x, mod, _depth)  # noqa: E731
     if isinstance(e, ast.Call):
         n = call_name(e) or ""
         if n == "min":
-            return any(ast.unparse(a) == "self.max" or _bounded_by_max(a) for a in e.args)
+            return any(ast.unparse(a) == "self.max" or rec(a) for a in e.args)
         if n == "max":
             # max(floor, x): bounded when every operand is either a documented floor (constants / self.min) or itself bounded
             def floor(a):
                 return all(isinstance(x, (ast.Constant, ast.Load, ast.Call, ast.Name, ast.Attribute)) for x in ast.walk(a)) and \
                     all(ast.unparse(x) in ("self.min", "self") or isinstance(x, (ast.Constant, ast.Load)) or (isinstance(x, ast.Call) and call_name(x) == "max") or (isinstance(x, ast.Name) and x.id in ("max", "self")) for x in ast.walk(a))
-            return all(floor(a) or _bounded_by_max(a) for a in e.args) and any(_bounded_by_max(a) for a in e.args)
+            return all(floor(a) or rec(a) for a in e.args) and any(rec(a) for a in e.args)
         if last(n) == "uniform" and len(e.args) == 2:
-            return ast.unparse(e.args[1]) == "self.max" or _bounded_by_max(e.args[1])
+            return ast.unparse(e.args[1]) == "self.max" or rec(e.args[1])
         if n == "float" and e.args:
-            return _bounded_by_max(e.args[0])
+            return rec(e.args[0])
+        if mod is not None and _depth > 0 and isinstance(e.func, ast.Name) and e.func.id in mod.functions:
+            from .c06 import _subst
+            h = mod.functions[e.func.id]
+            params = [a.arg for a in h.args.posonlyargs + h.args.args]
+            mapping = {p_: a for p_, a in zip(params, e.args)}
+            for k in e.keywords:
+                if k.arg:
+                    mapping[k.arg] = k.value
+            rets = [r.value for r in ast.walk(h) if isinstance(r, ast.Return) and r.value is not None]
+            return bool(rets) and all(_bounded_by_max(_subst(expand(r, r), mapping), mod, _depth - 1) for r in rets)
     if isinstance(e, ast.Attribute) and ast.unparse(e) == "self.max":
         return True
     return False
@@ -269,6 +313,8 @@ TWINS = [
     Twin("benign: exponent clamped instead of guarded", RP_REL, "        return factor * exp_base**attempts\n    except OverflowError:", "        return factor * exp_base ** min(attempts, 1000)\n    except OverflowError:", None),
     Twin("incrementing unclamped", RP_REL, "        return max(0.0, min(result, self.max))", "        return max(0.0, result)", "C07.R2"),
     Twin("jitter exceeds max", RP_REL, "        return min(base + rng.uniform(0, self.jitter), self.max)", "        return base + rng.uniform(0, self.jitter)", "C07.R2"),
+    Twin("seed zero treated as no seed", RP_REL, "        rng = random.Random(seed) if seed is not None else random\n        return rng.uniform(self.min, self.max)", "        rng = random.Random(seed) if seed else random\n        return rng.uniform(self.min, self.max)", "C07.R3"),
+    Twin("benign: draw helper with is-not-None", RP_REL, "        rng = random.Random(seed) if seed is not None else random\n        return rng.uniform(self.min, self.max)\n", "        return _uniform(self.min, self.max, seed)\n\n\ndef _uniform(low: float, high: float, seed: int | None) -> float:\n    rng = random.Random(seed) if seed is not None else random\n    return rng.uniform(low, high)\n\n\nclass _unused_marker:\n    pass\n", None),
     Twin("unseeded draw", RP_REL, "        rng = random.Random(seed) if seed is not None else random\n        return rng.uniform(self.min, self.max)", "        rng = random\n        return rng.uniform(self.min, self.max)", "C07.R3"),
     Twin("seed depends on time", CL_REL, 'f"{run_id}:{tick.step_name}:{failures}".encode()', 'f"{run_id}:{tick.step_name}:{failures}:{time.time()}".encode()', "C07.R3"),
     Twin("chain drops seed", RP_REL, "        return self.strategies[idx](attempts, seed=seed)", "        return self.strategies[idx](attempts)", "C07.R3"),
